@@ -413,8 +413,23 @@ def short(c):
 
 def check_cases(ctx, pid, cases, workdir, sanitize, memory_only=False):
     guard = 0 if sanitize else L.GUARD
-    real = L.run_real([worker_case(c) for c in cases], workdir, sanitize=sanitize, nproc=4 if ctx.quick() else 8)
     mouts = L.pq_batch([FNS[c["fn"]]["model"](c) for c in cases], nproc=4)
+    nproc = 4 if ctx.quick() else 8
+    if sanitize:
+        # UBSan reports every source location once per process: cases the model calls safe run in processes of their
+        # own, so that a report there can never be swallowed by an earlier report of a known-unsafe case
+        def unsafe(c, mo):
+            return FNS[c["fn"]].get("tagged", True) and L.tag(mo) not in ("ok", None)
+        ia = [i for i, (c, mo) in enumerate(zip(cases, mouts)) if not unsafe(c, mo)]
+        ib = [i for i, (c, mo) in enumerate(zip(cases, mouts)) if unsafe(c, mo)]
+        real = [None] * len(cases)
+        for part, tagname in ((ia, "safe"), (ib, "unsafe")):
+            rs = L.run_real([worker_case(cases[i]) for i in part], os.path.join(workdir, tagname), sanitize=True, nproc=nproc,
+                            max_crashes=15 if tagname == "safe" else 400)
+            for i, r in zip(part, rs):
+                real[i] = r
+    else:
+        real = L.run_real([worker_case(c) for c in cases], workdir, sanitize=False, nproc=nproc, max_crashes=150)
     souts = L.pq_batch([FNS[c["fn"]]["spec"](c) for c in cases], nproc=4)
     souts = second_phase(cases, real, souts)
     for c, r, mo, so in zip(cases, real, mouts, souts):
@@ -445,6 +460,9 @@ def judge(ctx, pid, c, r, mo, so, guard, sanitize, verbose=False, memory_only=Fa
     """returns True when the property fails on this case"""
     f = FNS[c["fn"]]
     fn = c["fn"]
+    if r[0] == "skipped":
+        ctx.count("not run (the worker had already crashed too often)", fn)
+        return False
     ctx.case({"fn": fn, "case": worker_case(c)}, trivial=f["trivial"](c))
     ctx.count("function", fn)
     ctx.count("stream", c["stream"])
